@@ -81,6 +81,10 @@ type Explorer struct {
 	// Filter, if set, prunes alternatives: return false to skip alt at point i.
 	Filter func(x *Chooser, i, alt int) bool
 	Execs  int64
+	// Stop, if it returns true, ends the exploration before the next execution
+	// (used when further executions could only repeat an already reported
+	// finding at a high real-time cost); the run is then not exhaustive.
+	Stop func() bool
 }
 
 func (e *Explorer) exec(prefix []int) (*Chooser, any) {
@@ -112,6 +116,9 @@ func (e *Explorer) record(ch *Chooser, obs any) {
 // Explore runs the default execution and every execution within the bound.
 // The default execution is attributed to the shard that owns index *Idx.
 func (e *Explorer) Explore() {
+	if e.Stop != nil && e.Stop() {
+		return
+	}
 	*e.Idx++
 	x, obs := e.exec(nil)
 	if e.R.Mine(*e.Idx) {
@@ -128,6 +135,9 @@ func (e *Explorer) children(x *Chooser, from int, top bool) {
 			break
 		}
 		for alt := 1; alt < len(x.Points[i].Menu); alt++ {
+			if e.Stop != nil && e.Stop() {
+				return
+			}
 			if e.Filter != nil && !e.Filter(x, i, alt) {
 				continue
 			}
@@ -383,38 +393,7 @@ func (t *Transport) Send(ctx context.Context, b []byte) ([]byte, error) {
 		t.Clock.SendsAfterExpiry++
 		ex.Err = ErrNotDescendant
 	}
-	answers := []Answer{Honest()}
-	var rx *ref.Rx
-	if t.Menu != nil && (t.Horizon == 0 || ex.Attempt < t.Horizon) {
-		answers = t.Menu(t, b)
-	}
-	names := make([]string, len(answers))
-	for i, a := range answers {
-		names[i] = a.Name
-	}
-	st := rep.H(t.Tag, t.Op, ex.Attempt, t.queueHash(), t.BMC.Digest(), b)
-	choice := 0
-	if t.Ch != nil {
-		choice = t.Ch.Choose("send", names, st)
-	}
-	a := answers[choice]
-	ex.Answer = a.Name
-	var late []Datagram
-	if a.Pre != nil {
-		a.Pre(t)
-	}
-	if !a.LostRequest {
-		rx = t.BMC.Receive(b)
-		ex.Rx = rx
-	}
-	if a.Apply != nil {
-		before := len(t.Queue)
-		a.Apply(t, rx)
-		if a.Late {
-			late = append(late, t.Queue[before:]...)
-			t.Queue = t.Queue[:before]
-		}
-	}
+	late := t.react(b, ex)
 	if len(t.Queue) == 0 {
 		t.Queue = append(t.Queue, late...)
 		if t.Clock != nil {
@@ -451,6 +430,45 @@ func (t *Transport) Send(ctx context.Context, b []byte) ([]byte, error) {
 	out := make([]byte, len(data))
 	copy(out, data)
 	return out[:len(data):len(data)], nil
+}
+
+// react lets the environment answer one request that reached the socket: it
+// picks the answer (chooser), lets the BMC receive the request unless it is
+// lost, and leaves the datagrams that arrive at once appended to t.Queue; the
+// ones that only arrive after this attempt has timed out are returned.
+func (t *Transport) react(b []byte, ex *Exchange) (late []Datagram) {
+	answers := []Answer{Honest()}
+	var rx *ref.Rx
+	if t.Menu != nil && (t.Horizon == 0 || ex.Attempt < t.Horizon) {
+		answers = t.Menu(t, b)
+	}
+	names := make([]string, len(answers))
+	for i, a := range answers {
+		names[i] = a.Name
+	}
+	st := rep.H(t.Tag, t.Op, ex.Attempt, t.queueHash(), t.BMC.Digest(), b)
+	choice := 0
+	if t.Ch != nil {
+		choice = t.Ch.Choose("send", names, st)
+	}
+	a := answers[choice]
+	ex.Answer = a.Name
+	if a.Pre != nil {
+		a.Pre(t)
+	}
+	if !a.LostRequest {
+		rx = t.BMC.Receive(b)
+		ex.Rx = rx
+	}
+	if a.Apply != nil {
+		before := len(t.Queue)
+		a.Apply(t, rx)
+		if a.Late {
+			late = append(late, t.Queue[before:]...)
+			t.Queue = t.Queue[:before]
+		}
+	}
+	return late
 }
 
 // Sleep is installed as the back-off seam: it charges virtual time and lets
